@@ -346,7 +346,22 @@ int main(int argc, char **argv)
 		if (!strcmp(tokv[0], "END")) { ob_printf(&out, "E live=%ld bad=%ld\n", vf_live_blocks - base_live, vf_bad_frees); flush_out(); continue; }
 		vf_progress++;
 		vf_ambient_errno();
-		if (!strcmp(tokv[0], "X")) cmd_split(nt, tokv);
+		if (!strcmp(tokv[0], "K") && nt >= 4) {
+			/* K <flags> <hex> <cut>...: status of ONE call on the first <cut> bytes (fresh tokener, exact-size block) for every cut given: = <err>,<end> ... */
+			size_t n; unsigned char *b = unhex(tokv[2], &n); int i;
+			ob_puts(&out, "=");
+			for (i = 3; i < nt; i++) {
+				size_t cut = (size_t)strtoul(tokv[i], NULL, 0); char *ex; struct json_tokener *tk = json_tokener_new(); struct json_object *o;
+				if (cut > n) cut = n;
+				ex = (char *)malloc(cut ? cut : 1); memcpy(ex, b, cut);
+				json_tokener_set_flags(tk, (int)strtol(tokv[1], NULL, 0));
+				o = json_tokener_parse_ex(tk, ex, (int)cut);
+				ob_printf(&out, " %d,%zu", (int)json_tokener_get_error(tk), json_tokener_get_parse_end(tk));
+				json_object_put(o); json_tokener_free(tk); free(ex);
+			}
+			free(b);
+		}
+		else if (!strcmp(tokv[0], "X")) cmd_split(nt, tokv);
 		else if (!strcmp(tokv[0], "T")) cmd_stream(nt, tokv);
 		else if (!strcmp(tokv[0], "R")) cmd_reset(nt, tokv);
 		else if (!strcmp(tokv[0], "G")) cmd_guard(nt, tokv);
